@@ -232,6 +232,7 @@ theorem call_installs_base {cl : Call} {rest : List Op} {s t : State}
 /-! ### The program run with an oracle is the operational fault model -/
 
 open Hts.Model.Bgzf
+open Hts.Spec.Flat (Offset Chunk)
 
 /-- One load attempt at `e` through the oracle, on identities (as `FReader.loadAt`). -/
 def popF (F : File) (e : Nat) (orc : List LoadFault) : (Block × Option Err) × Blk × List LoadFault :=
@@ -279,5 +280,179 @@ theorem popF_loadAt {F : File} (hwf : WF F) (x : FReader) (hf : x.r.file = F) (e
     | ok => simp only [popF, FReader.loadAt, hb, hl]; constructor <;> first | rfl | trivial
     | err => simp only [popF, FReader.loadAt]; constructor <;> first | rfl | trivial
     | eof => simp only [popF, FReader.loadAt]; constructor <;> first | rfl | trivial
+
+theorem gNextBlock_seqF {F : File} (hwf : WF F) (x : FReader) (hf : x.r.file = F) :
+    (gNextBlock x.r).seqF F (blkOf x.r.cur) x.oracle =
+      ((x.nextBlock.1.r, x.nextBlock.2), blkOf x.nextBlock.1.r.cur, x.nextBlock.1.oracle) ∧
+    x.nextBlock.1.r.file = F := by
+  have h := popF_loadAt hwf x hf x.r.cur.nextBase
+  simp only [gNextBlock, Prog.seqF, respF, tgt_next, FReader.nextBlock, h.1]
+  refine ⟨?_, by rw [h.2]; exact hf⟩
+  conv => rhs; rw [h.2]
+
+theorem gSkipEmpty_seqF {F : File} (hwf : WF F) : ∀ (fuel : Nat) (x : FReader), x.r.file = F →
+    (gSkipEmpty fuel x.r).seqF F (blkOf x.r.cur) x.oracle =
+      ((x.skipEmpty fuel).r, blkOf (x.skipEmpty fuel).r.cur, (x.skipEmpty fuel).oracle) ∧
+    (x.skipEmpty fuel).r.file = F := by
+  intro fuel
+  induction fuel with
+  | zero => intro x hf; exact ⟨rfl, hf⟩
+  | succ fuel ih =>
+    intro x hf
+    simp only [gSkipEmpty, FReader.skipEmpty]
+    split
+    · have hn := gNextBlock_seqF hwf x hf
+      rw [Prog.seqF_bind, hn.1]
+      rcases hnb : x.nextBlock with ⟨x', e⟩
+      rw [hnb] at hn
+      cases e with
+      | some e => exact ⟨rfl, hn.2⟩
+      | none => exact ih (x'.withR fun r => { r with err := none }) hn.2
+    · exact ⟨rfl, hf⟩
+
+theorem gReadLoop_seqF {F : File} (hwf : WF F) : ∀ (fuel : Nat) (x : FReader) (want : Nat), x.r.file = F →
+    (gReadLoop fuel x.r want).seqF F (blkOf x.r.cur) x.oracle =
+      (((x.readLoop fuel want).1.r, (x.readLoop fuel want).2.1, (x.readLoop fuel want).2.2),
+        blkOf (x.readLoop fuel want).1.r.cur, (x.readLoop fuel want).1.oracle) ∧
+    (x.readLoop fuel want).1.r.file = F := by
+  intro fuel
+  induction fuel with
+  | zero => intro x want hf; exact ⟨rfl, hf⟩
+  | succ fuel ih =>
+    intro x want hf
+    obtain ⟨⟨rf, rc, rl, re, rb⟩, orc⟩ := x
+    simp only at hf
+    simp only [gReadLoop, FReader.readLoop]
+    split
+    · have hb : blkOf (rc.read want).2.2 = blkOf rc := blkOf_read rc want
+      rcases hrd : rc.read want with ⟨out, eof, b⟩
+      rw [hrd] at hb
+      simp only at hb
+      cases eof with
+      | false =>
+        simp only [FReader.withR]
+        have := ih ⟨⟨rf, b, rl, re, rb⟩, orc⟩ (want - out.length) hf
+        simp only [hb] at this
+        rw [Prog.seqF_bind, this.1]
+        exact ⟨rfl, this.2⟩
+      | true =>
+        simp only [FReader.withR]
+        by_cases h0 : want - out.length = 0
+        · simp only [h0, if_true, Prog.seqF, Reader.setEnd, hb]
+          exact ⟨trivial, hf⟩
+        · simp only [h0, if_false]
+          cases rb with
+          | true =>
+            simp only [if_true, Prog.seqF, Reader.setEnd, hb]
+            exact ⟨trivial, hf⟩
+          | false =>
+            simp only [Bool.false_eq_true, if_false]
+            have hn := gNextBlock_seqF hwf ⟨⟨rf, b, rl, some Err.eof, false⟩, orc⟩ hf
+            simp only [hb] at hn
+            rw [Prog.seqF_bind, hn.1]
+            rcases hnb : (⟨⟨rf, b, rl, some Err.eof, false⟩, orc⟩ : FReader).nextBlock with ⟨x', e⟩
+            rw [hnb] at hn
+            cases e with
+            | some e => exact ⟨rfl, hn.2⟩
+            | none =>
+              simp only
+              have := ih (x'.withR fun r => { r with err := none }) (want - out.length) hn.2
+              simp only [FReader.withR] at this
+              rw [Prog.seqF_bind, this.1]
+              exact ⟨rfl, this.2⟩
+    · exact ⟨rfl, hf⟩
+
+theorem gRead_seqF {F : File} (hwf : WF F) (x : FReader) (hf : x.r.file = F) (n : Nat) :
+    (gRead x.r n).seqF F (blkOf x.r.cur) x.oracle =
+      (((x.read n).1.r, (x.read n).2.1, (x.read n).2.2), blkOf (x.read n).1.r.cur, (x.read n).1.oracle) ∧
+    (x.read n).1.r.file = F := by
+  simp only [gRead, FReader.read]
+  cases he : x.r.err with
+  | some e => exact ⟨rfl, hf⟩
+  | none =>
+    simp only
+    have hs := gSkipEmpty_seqF hwf x.r.skipFuel x hf
+    rw [Prog.seqF_bind, hs.1]
+    simp only
+    generalize x.skipEmpty x.r.skipFuel = x1 at hs ⊢
+    obtain ⟨⟨rf, rc, rl, re, rb⟩, orc⟩ := x1
+    cases re with
+    | some e => exact ⟨rfl, hs.2⟩
+    | none => exact gReadLoop_seqF hwf _ ⟨⟨rf, rc, ⟨rc.tx, rl.fin⟩, none, rb⟩, orc⟩ n hs.2
+
+theorem gReadByte_seqF {F : File} (hwf : WF F) (x : FReader) (hf : x.r.file = F) :
+    (gReadByte x.r).seqF F (blkOf x.r.cur) x.oracle =
+      ((x.readByte.1.r, x.readByte.2.1, x.readByte.2.2), blkOf x.readByte.1.r.cur, x.readByte.1.oracle) ∧
+    x.readByte.1.r.file = F := by
+  simp only [gReadByte, FReader.readByte]
+  cases he : x.r.err with
+  | some e => exact ⟨rfl, hf⟩
+  | none =>
+    simp only
+    have hs := gSkipEmpty_seqF hwf x.r.skipFuel x hf
+    rw [Prog.seqF_bind, hs.1]
+    simp only
+    generalize x.skipEmpty x.r.skipFuel = x1 at hs ⊢
+    obtain ⟨⟨rf, rc, rl, re, rb⟩, orc⟩ := x1
+    cases re with
+    | some e => exact ⟨rfl, hs.2⟩
+    | none =>
+      simp only [FReader.withR]
+      have hb : blkOf rc.readByte.2.2 = blkOf rc := blkOf_readByte rc
+      rcases hrd : rc.readByte with ⟨c, eof, b⟩
+      rw [hrd] at hb
+      simp only at hb
+      cases eof with
+      | false => simp only [Prog.seqF, Reader.setEnd, hb]; exact ⟨trivial, hs.2⟩
+      | true =>
+        simp only
+        cases rb with
+        | true => simp only [if_true, Prog.seqF, Reader.setEnd, hb]; exact ⟨trivial, hs.2⟩
+        | false =>
+          simp only [Bool.false_eq_true, if_false]
+          have hn := gNextBlock_seqF hwf ⟨⟨rf, b, ⟨rc.tx, rl.fin⟩, some Err.eof, false⟩, orc⟩ hs.2
+          simp only [hb] at hn
+          rw [Prog.seqF_bind, hn.1]
+          exact ⟨rfl, hn.2⟩
+
+theorem gSeek_seqF {F : File} (hwf : WF F) (x : FReader) (hf : x.r.file = F) (off : Offset) :
+    (gSeek x.r off).seqF F (blkOf x.r.cur) x.oracle =
+      (((x.seek off).1.r, (x.seek off).2), blkOf (x.seek off).1.r.cur, (x.seek off).1.oracle) ∧
+    (x.seek off).1.r.file = F := by
+  simp only [gSeek, FReader.seek]
+  split
+  · rename_i h
+    have hn : ¬ ((blkOf x.r.cur).base = some off.file ∧ good (blkOf x.r.cur) = true) := by
+      rintro ⟨h1, h2⟩
+      rcases h with h | h
+      · simp [blkOf] at h1; exact h h1.symm
+      · simp [blkOf, good, h] at h2
+    have hp := popF_loadAt hwf x hf off.file
+    simp only [Prog.seqF, respF, hn, if_false, hp.1]
+    rcases hl : x.loadAt off.file with ⟨x', e⟩
+    rw [hl] at hp
+    simp only at hp
+    have hf' : x'.r.file = F := by rw [hp.2]; exact hf
+    cases e with
+    | some e =>
+      simp only [Prog.seqF, FReader.withR]
+      refine ⟨?_, hf'⟩
+      conv => rhs; rw [hp.2]
+    | none =>
+      simp only [Prog.seqF, FReader.withR]
+      refine ⟨?_, hf'⟩
+      conv => rhs; rw [hp.2]
+      rfl
+  · rename_i h
+    have h1 : off.file = x.r.cur.base := by
+      apply Classical.byContradiction; intro hh; exact h (Or.inl hh)
+    have h2 : x.r.cur.hasData = true := by
+      cases hd : x.r.cur.hasData with
+      | true => rfl
+      | false => exact absurd (Or.inr hd) h
+    have hy : (blkOf x.r.cur).base = some off.file ∧ good (blkOf x.r.cur) = true := by
+      simp [blkOf, good, h1, h2]
+    simp only [Prog.seqF, respF, hy, and_self, if_true, FReader.withR]
+    exact ⟨rfl, hf⟩
 
 end Hts.Model.ReadAhead
